@@ -105,6 +105,46 @@ theorem C17_value_accept_exact (mac : Mac) (s k stored x : Bytes) (v : Nat)
       rw [← hacc, List.take_append_drop]
     · cases h
 
+/-! ### the stateful helper: a recorded reply is refused for a later request -/
+
+/-- the nonce handed out for a request is the entropy source's output for *that* call; the helper's
+    previous state does not enter -/
+theorem C17_nonce_fresh (h : Helper) (e : Bytes) :
+    (h.newNonce e).issued = e ∧ (h.newNonce e).lastNonce = e ∧ (h.newNonce e).secret = h.secret :=
+  ⟨rfl, rfl, rfl⟩
+
+/-- two consecutive requests whose entropy outputs differ get different nonces -/
+theorem C17_nonce_not_reused (h : Helper) (e1 e2 : Bytes) (hne : e1 ≠ e2) :
+    (h.newNonce e1).issued ≠ ((h.newNonce e1).newNonce e2).issued := hne
+
+/-- **C17_replay_refused**: let a long-lived helper issue nonce `e1` for a first read and record any reply
+    `(rs1, tag)` that authenticated for it; after the helper has advanced to a second read whose entropy
+    output `e2` differs from `e1` (nonces of equal length — all have 32 bytes), the recorded tag is refused,
+    whatever records it is presented with.  Under `MacInj`. -/
+theorem C17_replay_refused (mac : Mac) (h : Helper) (e1 e2 : Bytes) (rs1 rs2 : List KVRec) (tag : Bytes)
+    (hinj : MacInj mac h.secret) (hlen : e1.length = e2.length) (hne : e2 ≠ e1)
+    (hacc1 : (h.newNonce e1).checkHmac mac rs1 tag = true) :
+    ((h.newNonce e1).newNonce e2).checkHmac mac rs2 tag = false := by
+  cases hacc2 : ((h.newNonce e1).newNonce e2).checkHmac mac rs2 tag with
+  | false => rfl
+  | true =>
+    rw [C17_accept_exact] at hacc1 hacc2
+    simp only [Helper.newNonce] at hacc1 hacc2
+    have := C17_nonce mac h.secret e1 e2 rs1 rs2 hinj hlen (by simp only [sharedTag]; rw [← hacc1, ← hacc2])
+    exact absurd this.1.symm hne
+
+/-- the same along the state machine: whatever requests run in between, as long as the current nonce
+    differs from (and is as long as) the one a recorded reply was made under, `check` refuses it -/
+theorem C17_replay_refused_step (mac : Mac) (h : Helper) (n1 : Bytes) (rs1 rs2 : List KVRec)
+    (hinj : MacInj mac h.secret) (hlen : n1.length = h.lastNonce.length) (hne : h.lastNonce ≠ n1) :
+    (h.step mac (.check rs2 (sharedTag mac h.secret n1 rs1))).2 = .verdict false := by
+  simp only [Helper.step]
+  cases hacc : h.checkHmac mac rs2 (sharedTag mac h.secret n1 rs1) with
+  | false => rfl
+  | true =>
+    have := C17_nonce_check mac h n1 rs2 rs1 hinj hlen.symm hacc
+    exact absurd this.1.symm hne
+
 /-- client and server tags over anything never coincide (domain bytes 0x01 / 0x02) -/
 theorem C17_client_server_distinct (mac : Mac) (h : Helper) (rs rs' : List KVRec)
     (hinj : MacInj mac h.secret) : h.clientHmac mac rs ≠ h.serverHmac mac rs' := by
